@@ -14,63 +14,53 @@
 package fsm
 
 import (
-	"fmt"
 	"regexp"
-	"strconv"
 	"strings"
 )
 
 var (
-	templateReplaceCaptureRE = regexp.MustCompile(`\$\{?([a-zA-Z0-9_\$]+)\}?`)
+	// templateExpandRE has no named groups; it is only used for its Expand
+	// method, so that templates follow exactly the rules of regex mappings.
+	templateExpandRE = regexp.MustCompile("")
 )
 
 type TemplateFormatter struct {
-	captureIndexes []int
-	captureCount   int
-	fmtString      string
+	captureCount int
+	fmtString    string
 }
 
 // NewTemplateFormatter instantiates a TemplateFormatter
 // from given template string and the maximum amount of captures.
 func NewTemplateFormatter(template string, captureCount int) *TemplateFormatter {
-	matches := templateReplaceCaptureRE.FindAllStringSubmatch(template, -1)
-	if len(matches) == 0 {
+	if !strings.Contains(template, "$") {
 		// if no regex reference found, keep it as it is
 		return &TemplateFormatter{captureCount: 0, fmtString: template}
 	}
-
-	var indexes []int
-	valueFormatter := template
-	for _, match := range matches {
-		idx, err := strconv.Atoi(match[len(match)-1])
-		if err != nil || idx > captureCount || idx < 1 {
-			// if index larger than captured count or using unsupported named capture group,
-			// replace with empty string
-			valueFormatter = strings.ReplaceAll(valueFormatter, match[0], "")
-		} else {
-			valueFormatter = strings.ReplaceAll(valueFormatter, match[0], "%s")
-			// note: the regex reference variable $? starts from 1
-			indexes = append(indexes, idx-1)
-		}
-	}
-	return &TemplateFormatter{
-		captureIndexes: indexes,
-		captureCount:   len(indexes),
-		fmtString:      valueFormatter,
-	}
+	return &TemplateFormatter{captureCount: captureCount, fmtString: template}
 }
 
 // Format accepts a list containing captured strings and returns the formatted
 // string using the template stored in current TemplateFormatter.
+// References are expanded like regexp.Expand does it for regex mappings: $n and
+// ${n} stand for the n-th capture (n >= 1), references beyond the capture count
+// and named references are replaced with the empty string, $$ is a literal $.
 func (formatter *TemplateFormatter) Format(captures []string) string {
-	if formatter.captureCount == 0 {
+	if formatter.captureCount == 0 && !strings.Contains(formatter.fmtString, "$") {
 		// no label substitution, keep as it is
 		return formatter.fmtString
 	}
-	indexes := formatter.captureIndexes
-	vargs := make([]interface{}, formatter.captureCount)
-	for i, idx := range indexes {
-		vargs[i] = captures[idx]
+	count := formatter.captureCount
+	if count > len(captures) {
+		count = len(captures)
 	}
-	return fmt.Sprintf(formatter.fmtString, vargs...)
+	// lay the captures out as the submatches 1..count of a match whose group 0 is unset
+	var src strings.Builder
+	match := make([]int, 2*(count+1))
+	match[0], match[1] = -1, -1
+	for i := 0; i < count; i++ {
+		match[2*i+2] = src.Len()
+		src.WriteString(captures[i])
+		match[2*i+3] = src.Len()
+	}
+	return string(templateExpandRE.ExpandString(nil, formatter.fmtString, src.String(), match))
 }
